@@ -74,6 +74,16 @@ def run(ctx, model_available=True):
                 ops.append(("recv", f"0;255;3;0;2;{v}", ()))
             ops.append(("recv", f"1;255;3;0;{sig};{pl}", ()))
             hs.append(ops)
+    # a held command, the node presents itself again (it is awake), a newer command for the same
+    # key is written directly and that write fails (or succeeds), then the node's next wake
+    for v, sig, pl in (("2.0", 22, "0"), ("2.1", 22, "5"), ("2.2", 32, "")):
+        for fault in ((True,), ()):
+            for same_key in (True, False):
+                hs.append([("recv", f"0;255;3;0;2;{v}", ()), ("put_node", 1, 17, "2.0", True), ("add_child", 1, 0, 3),
+                           ("send", (1, 0, 1, 0, 2, "held"), True, ()),
+                           ("recv", "1;255;0;0;17;2.0", ()), ("recv", "1;0;0;0;3;", ()),
+                           ("send", (1, 0, 1, 0, 2 if same_key else 3, "newer"), True, fault),
+                           ("recv", f"1;255;3;0;{sig};{pl}", ()), ("recv", f"1;255;3;0;{sig};{pl}", ())])
     res = run_property(ctx, "C12", histories=hs, n_quick=0, n_thorough=0, oracle=oracle_c12,
                        model_available=model_available,
                        rule="complete product: five commands x representative types (existing / not existing in the active protocol) x buffering flag x destination unknown/awake/sleeping x six version states, plus sleep-buffer histories")
